@@ -341,6 +341,24 @@ func replayCase(property, unit string) (json.RawMessage, bool) {
 	return rf.Case, true
 }
 
+// traceCase writes the case about to be checked to the file named by
+// VERIF_TRACE_CASE (a replay file). The driver sets that variable when it
+// re-runs a worker whose process died (a panic in a goroutine of the code
+// under test cannot be recovered by the check): the file then holds the case
+// that killed it.
+func traceCase[C any](property, unit string, c C) {
+	path := os.Getenv("VERIF_TRACE_CASE")
+	if path == "" {
+		return
+	}
+	raw, err := json.Marshal(c)
+	if err != nil {
+		return
+	}
+	b, _ := json.Marshal(ReplayFile{Property: property, Unit: unit, Case: raw})
+	os.WriteFile(path, b, 0o644)
+}
+
 // Run is the standard rapid-driven unit: generate, check, record. When
 // VERIF_REPLAY names a replay file for this unit, rapid is bypassed and only
 // that case is checked.
@@ -366,6 +384,7 @@ func Run[C any](t *testing.T, property, unit string, gen func(*rapid.T) C, check
 	}
 	rapid.Check(t, func(rt *rapid.T) {
 		c := gen(rt)
+		traceCase(property, unit, c)
 		v := Guard(check, c)
 		rec.Record(c, v)
 		if v.Violation != "" && v.Poisoned {
@@ -410,6 +429,7 @@ func Enum[C any](t *testing.T, property, unit string, exhaustive bool, enum func
 	bestMsg := ""
 	nfail := 0
 	enum(func(c C) bool {
+		traceCase(property, unit, c)
 		v := Guard(check, c)
 		if v.Violation != "" && v.Poisoned {
 			rec.Record(c, v)
